@@ -241,6 +241,10 @@ func (w *world) prioStep() {
 // what a scheduling cycle does between two notifications
 func (w *world) cycleOp() {
 	r := w.r
+	if r.Chance(1, 5) {
+		w.batchOp()
+		return
+	}
 	switch r.Intn(10) {
 	case 0:
 		w.emit(opT{Code: 13})
@@ -312,6 +316,44 @@ func (w *world) cycleOp() {
 		if p, has := w.pods[id]; has && ok && p.Job == job && !w.gone[id] {
 			p.Deleting = true
 			w.ack[id] = true
+		}
+	}
+}
+
+// a batch of 2-4 bind contexts (BATCH_BIND_NUM > 1) with independent API outcomes in any positions
+func (w *world) batchOp() {
+	r := w.r
+	m := r.Range(2, 4)
+	used := map[int64]bool{}
+	b := []cachectl.BindCtx{}
+	for k := 0; k < m; k++ {
+		id := int64(r.Range(1, int(w.nPods)))
+		for try := 0; try < 6; try++ {
+			if p, ok := w.pods[id]; ok && !used[id] && p.Node == 0 && p.Phase == 1 && !p.Deleting && p.Job != 0 {
+				break
+			}
+			id = int64(r.Range(1, int(w.nPods)))
+		}
+		used[id] = true
+		job := 1 + int64(r.Range(1, int(w.nJobs)))
+		if p, ok := w.pods[id]; ok && p.Job != 0 && !r.Chance(1, 10) {
+			job = p.Job
+		}
+		b = append(b, cachectl.BindCtx{J: job, T: id, N: int64(r.Range(1, int(w.nNodes))), F: vh.Pick(r, []int64{1, 1, 0, 2, 2, 3, 4})})
+	}
+	w.emit(opT{Code: 19, Batch: b})
+	done := map[int64]bool{}
+	for _, x := range b {
+		p, has := w.pods[x.T]
+		if done[x.T] || !has || p.Job != x.J || p.Node != 0 || w.gone[x.T] {
+			continue // only the first context of a task can be accepted
+		}
+		done[x.T] = true
+		if x.F == 1 {
+			p.Node = x.N
+			w.ack[x.T] = true
+		} else {
+			w.resync = append(w.resync, x.T)
 		}
 	}
 }
@@ -409,6 +451,13 @@ func describe(ops []opT) any {
 			out = append(out, fmt.Sprintf("job-status-update j%d", o.A[0]))
 		case 18:
 			out = append(out, fmt.Sprintf("%d resync drains with failing GET", o.A[0]))
+		case 19:
+			d := "bind-batch"
+			for _, x := range o.Batch {
+				d += fmt.Sprintf(" [j%d t%d n%d %s]", x.J, x.T, x.N,
+					[]string{"bind-fails", "bound", "prebind-fails", "prebind-and-status-write-fail", "bind-and-status-write-fail"}[x.F])
+			}
+			out = append(out, d)
 		case 15:
 			out = append(out, fmt.Sprintf("prio pc%d value=%d globalDefault=%v", o.Prio.ID, o.Prio.Value, o.Prio.Global))
 		case 16:
@@ -464,6 +513,21 @@ func gen(rng *vh.Rng, n int, emit func(id string, sel int, in []int64, kind stri
 	bs := append([]opT{}, pb...)
 	bs[3] = opT{Code: 11, A: []int64{2, 1, 1}, F: 4}
 	emit("bind-and-status-write-fail", 1, encCase(bs), "fixed", true, describe(bs))
+	// a batch of three contexts: the pre-binder fails for the FIRST, the second is bound, the binder fails for the third
+	mkp := func(id int64, node int64) opT {
+		return opT{Code: 1, Pod: cachectl.PodSpec{ID: id, Job: 2, Node: node, Phase: 1, Role: 1, CPU: 500, Mem: 1 << 20}}
+	}
+	for name, fs := range map[string][3]int64{"bind-batch-prebind-fails-first": {2, 1, 0}, "bind-batch-mixed": {0, 3, 1}, "bind-batch-all-bound": {1, 1, 1}} {
+		bb := []opT{pb[0], pb[1], mkp(1, 0), mkp(2, 0), mkp(3, 0),
+			{Code: 19, Batch: []cachectl.BindCtx{{J: 2, T: 1, N: 1, F: fs[0]}, {J: 2, T: 2, N: 1, F: fs[1]}, {J: 2, T: 3, N: 1, F: fs[2]}}}}
+		for i, f := range fs {
+			if f == 1 {
+				bb = append(bb, mkp(int64(i+1), 1)) // the bound pod's notification
+			}
+		}
+		bb = append(bb, opT{Code: 10}, opT{Code: 9})
+		emit(name, 1, encCase(bb), "fixed", true, describe(bb))
+	}
 	// a failed bind, then the API server unreachable for k resync attempts, then recovery
 	for _, k := range []int64{1, 10, 11, 30} {
 		gf := []opT{pb[0], pb[1], pb[2], {Code: 11, A: []int64{2, 1, 1}, F: 0}, {Code: 18, A: []int64{k}}, {Code: 10}, {Code: 9}}
